@@ -29,6 +29,16 @@ def check_numbering(evs):
     rewinds = [e.seq for e in evs if (e.kind == "call_begin" and e.d["api"] == "resume") or (e.kind == "msg" and e.d["cmd"] == "_start_suspender")]
     monitor_names = {e.d["kw"].get("name") for e in evs if e.kind == "msg" and e.d["cmd"] == "monitor"}
     runs, _ = docs_by_run(evs)
+    # which 'save' message was being executed when each event document was emitted
+    save_mid = {}
+    cur = None
+    for e in evs:
+        if e.kind == "msg":
+            cur = e.d["mid"] if e.d["cmd"] == "save" else None
+        elif e.kind == "cmd" and cur is not None and e.d["mid"] == cur:
+            cur = None
+        elif e.kind == "doc" and e.d["name"] == "event" and cur is not None:
+            save_mid[e.seq] = cur
     for uid, docs in runs.items():
         desc = {}
         emis = {}  # stream -> [(seq, kind, [seq_nums])]
@@ -100,6 +110,22 @@ def check_numbering(evs):
                         N=N,
                     )
                 )
+        # a seq_num may be emitted again only for the *same* data point (the same 'save' message, executed again after
+        # a rewind): within a stream, seq_num <-> save message is one to one
+        owner = {}  # (stream, seq_num) -> mid of the save message
+        numof = {}  # (stream, mid) -> seq_num
+        for seq, name, doc in docs:
+            if name != "event":
+                continue
+            mid = save_mid.get(seq)
+            if mid is None:
+                continue
+            stream = desc.get(doc["descriptor"])
+            k1, k2 = (stream, doc["seq_num"]), (stream, mid)
+            if owner.setdefault(k1, mid) != mid:
+                out.append(V("seq-num-shared-by-two-data-points", f"stream {stream!r}: seq_num {doc['seq_num']} was given to two different data points (save messages #{owner[k1]} and #{mid})", stream=stream))
+            if numof.setdefault(k2, doc["seq_num"]) != doc["seq_num"]:
+                out.append(V("data-point-renumbered", f"stream {stream!r}: the data point of save message #{mid} was emitted as seq_num {numof[k2]} and again as {doc['seq_num']}", stream=stream))
         for stream, N in ne.items():
             if stream not in emis and N != 0:
                 out.append(V("num-events-mismatch", f"stream {stream!r} reported with {N} events but no descriptor was emitted", stream=stream))
